@@ -105,7 +105,7 @@ theorem C15_errpos (g : Grammar) (d : Dec) (ch : Nat) (rest : Str) (i : Nat) (pr
   · intro hk; split <;> omega
 
 /-- **C15, at the loader**: when the text handed to the lexer contains a character outside the
-    grammar's table, `parse()` can end in only two ways — with a `LexerError`, or with a module whose last
+    grammar's table, `parse()` ends in one of two ways — with a `LexerError`, or with a module whose last
     requested token is the END statement (the character lies beyond what the parser asked the lexer for).
     It never ends in a `ParseError` and never returns a module by running off the end of the text.
     For every grammar table, decoder, parser class and text. -/
@@ -113,9 +113,9 @@ theorem C15_loader (g : Grammar) (d : Dec) (kind : ParserKind) (prior : List Int
     (hc : c ∈ docOf kind text) (hbad : charAllowed g c = false) :
     match (parseWith g d kind prior text).outcome with
     | .ok _ => ∃ t, (parseWith g d kind prior text).last = some t ∧ Tok.isEndStatement g t.text = true
-    | .error e => e.isLexer = true ∨ e = .fuel := by
+    | .error e => e.isLexer = true := by
   have hne := C15_reject g d (docOf kind text) c hc hbad
-  have hs := parse_spec g d kind prior text
+  have hs := parse_spec_total g d kind prior text
   revert hs
   cases (parseWith g d kind prior text).outcome with
   | ok m =>
@@ -125,10 +125,9 @@ theorem C15_loader (g : Grammar) (d : Dec) (kind : ParserKind) (prior : List Int
     · exact h
   | error e =>
     intro hs
-    rcases hs with h | ⟨_, h⟩ | h
-    · exact Or.inl h
+    rcases hs with h | ⟨_, h⟩
+    · exact h
     · exact absurd h hne
-    · exact Or.inr h
 
 example : charAllowed Gen.pvl 233 = true ∧ charAllowed Gen.pvl 0x2603 = false ∧
     charAllowed Gen.odl 233 = false ∧ charAllowed Gen.pvl 11 = true := by decide
